@@ -2,8 +2,11 @@ from vdriver import Group
 META = {'level': 'other'}
 def groups(tier):
     return [Group('token.compare', 'ctrl_token', 'C27/token.c', entry='h_cte', enforce='daemon__constant_time_equal', loop_contracts=True,
-                  backend=['sat', 'cadical'], kind='unbounded',
+                  backend=['sat', 'cadical'], kind='unbounded', timeout=150,
                   clause='constant_time_equal answers true exactly for equal strings (every length; loop invariant with ghost position and witness)'),
+            Group('token.compare.bounded', 'ctrl_token_b', 'C27/token_b.c', entry='h_cte_bounded', unwind=34, kind='bounded', backend=['sat', 'cadical'],
+                  bound='strings of at most 24 bytes', defines=['CXX_VEC_CAP=40', 'CXX_FIXED_STORAGE'], timeout=600,
+                  clause='constant_time_equal == string equality for all strings up to 24 bytes, independent of its loop structure'),
             Group('handlers.gate', 'ctrl_auth', 'C27/gate.c', entry='h_gate', unwind=3, kind='skeleton', checks=[],
                   bound='control-flow skeleton (E3); loops unrolled twice', skeleton=True, replay='gate',
                   clause='with a configured token, STORE / FETCH (streamed or to a daemon path) / STOP perform no effect before the exact token was presented')]
@@ -21,7 +24,7 @@ def replay(group, trace):
     out_all, hit = [], False
     i = 0
     for mode in ('none', 'wrong'):
-        for sc in ['stop', 'fetch_out', 'fetch_stream', 'store']:
+        for sc in ['stop', 'fetch_out', 'fetch_stream', 'store'] + (['raw'] if mode == 'none' else []):
             i += 1
             port = 20000 + (os.getpid() * 7 + i * 131 + random.randint(0, 5000)) % 20000
             rc, out = R.run(exe, [sc, port, mode], timeout=60)
